@@ -94,6 +94,30 @@ def wcom(data, mask=None, error=None):
     return (xx * d).sum() / t, (yy * d).sum() / t
 
 
+_DECADES = [(-16, 'lt1e-16'), (-8, '1e-16..1e-8'), (-3, '1e-8..1e-3'), (3, '1e-3..1e3'), (8, '1e3..1e8'),
+            (16, '1e8..1e16'), (999, 'ge1e16')]
+
+
+def _bucket(v):
+    if not (v > 0) or not np.isfinite(v):
+        return 'zero_or_nonfinite'
+    lg = math.log10(v)
+    for hi, name in _DECADES:
+        if lg < hi:
+            return name
+    return 'ge1e16'
+
+
+def _magnitude(rng, p_unit=0.5):
+    """Overall magnitude of the image values: 1, a power of two 2**-80..2**80, or 1e-24..1e24."""
+    r = rng.random()
+    if r < p_unit:
+        return 1.0
+    if r < p_unit + 0.6 * (1 - p_unit):
+        return float(2.0 ** int(rng.integers(-80, 81)))
+    return float(10.0 ** rng.uniform(-24.0, 24.0))
+
+
 def _key(row):
     """NaN-safe exact identity of a table row."""
     return np.ascontiguousarray(np.asarray(row, float) + 0.0).tobytes()
@@ -282,6 +306,17 @@ def _run_find_peaks(case):
             error = 1.0 + 0.3 * xx + 0.2 * yy + rng.uniform(0, 1, size=shape)
     quantity = cls == 'fp_quantity'
     int_dtype = bool(np.all(np.isfinite(data)) and np.all(data == np.round(data)) and rng.random() < 0.2)
+    # overall magnitude of image, threshold (and error map): the selection does not depend on it
+    mag = 1.0 if int_dtype else _magnitude(rng)
+    if mag != 1.0:
+        data = data * mag
+        thr = thr * mag
+        if np.ndim(thr) == 0:
+            thr_desc = float(thr)
+        if error is not None and rng.random() < 0.6:
+            error = error * mag
+    fin_ = np.abs(data[np.isfinite(data)])
+    case.note('data_magnitude_' + _bucket(float(fin_.max()) if fin_.size else 0.0))
     wcs = None
     if cls in ('fp_real', 'fp_quantity') and rng.random() < 0.4:
         from astropy.wcs import WCS
@@ -294,7 +329,7 @@ def _run_find_peaks(case):
     case.params = dict(fn='find_peaks', shape=list(shape), kind=kind, region=regname, thr=thr_desc,
                        masked=mask is not None, border=border if border is None else list(np.atleast_1d(border)),
                        npeaks=None if npeaks == np.inf else npeaks, centroid=cname, error=error is not None,
-                       quantity=quantity, int_dtype=int_dtype, wcs=wcs is not None)
+                       quantity=quantity, int_dtype=int_dtype, wcs=wcs is not None, magnitude=mag)
     case.digest = core.arr_digest(data, np.asarray(thr), mask, fp, error) + core.digest(
         [cls, str(kw.get('box_size')), str(border), str(npeaks), cname, quantity, int_dtype, wcs is not None])[:6]
     mech = {'cls': cls, 'fn': 'find_peaks', 'region': 'footprint' if 'footprint' in kw else 'box',
@@ -468,6 +503,19 @@ def _run_find_peaks(case):
                     m3['explained_by_carried_kwargs'] = bool(core.exact(obs, e3))
                 case.check(ok, 'find_peaks_centroid_is_centroid_func_on_cutout', m3, index=i, obs=obs, exp=e1,
                            peak=[int(xs[i]), int(ys[i])])
+                if cname == 'com':
+                    # independent of the library's centroid_com: the intensity-weighted mean of the cutout
+                    from pv.ref import c17_centroid as cref
+                    oks, cmin = [], np.inf
+                    for arr in ((data, filled) if nanm[slc].any() else (data,)):
+                        r_, cond_ = cref.com_reference(arr[slc], mcut)
+                        if np.isfinite(cond_) and cond_ < 1e6:
+                            cmin = min(cmin, cond_)
+                            tol_ = 1e-12 * cond_ * max(fp.shape)
+                            oks.append(bool(np.all(np.abs(obs - (r_ + [slc[1].start, slc[0].start])) <= tol_)))
+                    if oks:
+                        case.check(any(oks), 'find_peaks_com_centroid_is_weighted_mean_of_cutout',
+                                   dict(mech, centroid='com'), index=i, obs=obs, cond=cmin)
 
 
 # ======================================================================
@@ -556,14 +604,14 @@ def _table_rows(tbl, cols):
 class _Finder:
     """Factory for one finder kind with a fixed base configuration."""
 
-    def __init__(self, kind, rng, sigma_noise, sparse):
+    def __init__(self, kind, rng, sigma_noise, sparse, mag=1.0):
         self.kind = kind
         self.base = {}
         b = self.base
         if sparse:
-            b['threshold'] = float(rng.choice([0.5, 1.0, 2.0, 4.0, 8.0]))
+            b['threshold'] = float(rng.choice([0.5, 1.0, 2.0, 4.0, 8.0])) * mag
         else:
-            b['threshold'] = float(rng.uniform(3.0, 12.0) * sigma_noise)
+            b['threshold'] = float(rng.uniform(3.0, 12.0) * sigma_noise) * mag
         if kind in ('dao', 'iraf'):
             b['fwhm'] = float(rng.choice([2.0, 3.0, float(np.round(rng.uniform(1.5, 4.5), 2))]))
             if rng.random() < 0.3:
@@ -735,7 +783,11 @@ def _run_star(case):
     sparse = scene == 'sparse'
     data, sig = _star_scene(case, sparse)
     ny, nx = data.shape
-    F = _Finder(kind, rng, sig, sparse)
+    mag = _magnitude(rng, p_unit=0.55)
+    data = data * mag
+    fin_ = np.abs(data[np.isfinite(data)])
+    case.note('data_magnitude_' + _bucket(float(fin_.max()) if fin_.size else 0.0))
+    F = _Finder(kind, rng, sig, sparse, mag)
     mask = None
     if rng.random() < 0.4:
         mask = rng.random(data.shape) < rng.choice([0.01, 0.05])
@@ -747,7 +799,7 @@ def _run_star(case):
         data[rng.random(data.shape) < 0.004] = np.nan
     has_nan = bool(np.isnan(data).any())
     case.params = dict(finder=kind, scene=scene, shape=[ny, nx], base={k: v for k, v in F.base.items()},
-                       masked=mask is not None, nan=has_nan)
+                       masked=mask is not None, nan=has_nan, magnitude=mag)
     case.digest = core.arr_digest(data, mask, getattr(F, 'user_kernel', None)) + core.digest(
         [kind, sorted((k, str(v)) for k, v in F.base.items())])[:6]
     msep = F.min_sep()
